@@ -1035,6 +1035,14 @@ where
               // Deserialize the server message and handle it.
               match deserialize(Cursor::new(line_bytes)) {
                 Ok(msg) => {
+                    // A payload longer than the negotiated buffers can neither be read nor skipped:
+                    // treat it as a read error, so that the link is replaced instead of wedging the reader.
+                    if let Some(payload_info) = msg.payload_info() && payload_info.length > payload_buffer_pool.buffer_size() {
+                        warn!(client_id = client_id.as_str(), connection_id = conn_id, service_type = ST::NAME, length = payload_info.length, "payload exceeds the maximum payload size");
+                        error_state.set_error(anyhow!("payload exceeds the maximum payload size"));
+                        break;
+                    }
+
                     // Read optional payload.
                     let res = match Self::read_message_payload(&msg, &mut stream_reader, payload_buffer_pool.acquire_buffer().await, payload_read_timeout).await {
                         Ok(payload_opt) => Ok((msg.clone(), payload_opt)),
